@@ -83,18 +83,22 @@ theorem fields_covered : table.all (fun e => (specOf e.cls e.field).isSome) = tr
 
 theorem table_fields_nodup : (table.map (fun e => (e.cls, e.field))).Nodup := by decide +kernel
 
-/-- the only validated fields that are not numeric comparisons are the two voltage ranges (length-2
-sequences) and two enumerations (`variant_adptv ∈ (1, 2)`, the island topology); exercised by the
-correspondence, not by the guard theorems -/
+/-- the validated settings that are not numbers (voltage ranges and fit ranges: sequences; algorithm type,
+result type, island topology: enumerations) — found by observing that the constructor or the setter refuses an
+ill-typed value; exercised by the correspondence, not by the guard theorems -/
 theorem opaque_fields_known :
-    opaqueFields = ["APDCharacteristics.adc_voltage_range", "Algorithm.variant_adptv", "Calibration.topology",
+    opaqueFields = ["APDCharacteristics.adc_voltage_range", "Algorithm.type", "Calibration.result_fit_range",
+      "Calibration.result_type", "Calibration.target_fit_range", "Calibration.topology",
       "Characteristics.adc_voltage_range"] := by
   decide
 
-/-- the integer-only fields found in the source are the documented integer settings -/
+/-- the integer-valued settings (declared `int` in the public signatures) are the documented ones; for them the
+guard theorems speak about integers -/
 theorem int_only_fields_known : intOnlyFields =
-    [("Calibration", "pygmo_seed"), ("Calibration", "num_best_decisions"), ("Algorithm", "generations"),
-     ("Algorithm", "population_size"), ("Algorithm", "variant")] := by decide
+    [("Geometry", "row"), ("Geometry", "col"), ("Characteristics", "adc_bit_resolution"),
+     ("APDCharacteristics", "adc_bit_resolution"), ("Calibration", "pygmo_seed"), ("Calibration", "num_islands"),
+     ("Calibration", "num_best_decisions"), ("Algorithm", "generations"), ("Algorithm", "population_size"),
+     ("Algorithm", "variant"), ("Algorithm", "variant_adptv")] := by decide
 
 
 /-- a sweep / override / calibration variable reaches the property setter: `Processor.set` ends in
